@@ -85,6 +85,7 @@ func (u *fetchUnit) coFetch(cycle int, app risc.Application, ctx *risc.Context) 
 
 func (u *fetchUnit) reset(pc int32, cleanPending bool) {
 	u.coroutine = nil
+	u.complete = false
 	u.pc = pc
 	u.toCleanPending = cleanPending
 }
